@@ -324,6 +324,10 @@ def header_name_comparisons(F):
             if cal and cal.name in ("eq", "ne") and cal.def_trait == "std::cmp::PartialEq" and len(t["args"]) == 2:
                 pv = pv or Prov(f, copies=True)
                 a, b = pv.operand(t["args"][0]), pv.operand(t["args"][1])
+                if f.is_closure:
+                    # a value captured from the enclosing function is what it is there
+                    from riolib.prov import resolve_captures
+                    a, b = resolve_captures(a, f), resolve_captures(b, f)
                 if mentions_field(a, "name", HEADER) or mentions_field(b, "name", HEADER):
                     out.append((f, span_line(t["s"]), a, b))
     return out
@@ -345,12 +349,15 @@ def r10_6(ctx):
         seen = {}
         for f, line, a, b in sites:
             r.analysed(f)
-            k = "header-name-cmp:%s" % f.key
+            owner = f
+            while owner.is_closure and owner.parent in F.fns:
+                owner = F.fns[owner.parent]
+            k = "header-name-cmp:%s" % owner.key
             seen[k] = seen.get(k, 0) + 1
             key = k if seen[k] == 1 else "%s#%d" % (k, seen[k])
             ok = lowered(a) and lowered(b)
             r.ob(key, ok, f.loc(line), "%s vs %s: %s" % (show(a, f)[:70], show(b, f)[:70], "both lower-cased" if ok else "compared exactly although header names are case-insensitive everywhere else"))
-        r.ob("header-name-cmp:sites", len(sites) >= 20, "", "%d comparisons of a header name" % len(sites))
+        r.ob("header-name-cmp:sites", len(sites) >= 14, "", "%d comparisons of a header name" % len(sites))
     ctx.run_rule("R10.6", "header-name comparison discipline", body, floor=14)
 
 
